@@ -142,9 +142,7 @@ def run_shard(ctx):
         for _ in range(60):
             if rng.random() < 0.08:
                 # blank-only / comment-only lines
-                text = rng.choice(['', ' ', '     ', '\t']) + (comment_text(rng) if rng.random() < 0.7 else '')
-                if '\t' in text and '#' not in text:
-                    text = '   '
+                text = rng.choice(['', ' ', '     ', '  ']) + (comment_text(rng) if rng.random() < 0.7 else '')
                 items.append(('en', text))
                 meta.append(('empty', text, None))
                 continue
